@@ -65,7 +65,7 @@ func scanWants(prop string, o *Obligation) bool {
 		switch {
 		case strings.HasPrefix(o.Class, "pre:") && (strings.Contains(o.Class, "addFreeFloatingToken") || strings.Contains(o.Class, "setTokenPosition") || strings.Contains(o.Class, "NewLines")):
 			return true
-		case o.Class == "post:2", o.Class == "post:3":
+		case o.Class == "post:2", o.Class == "post:3", strings.HasPrefix(o.Class, "tile:"):
 			return true
 		case o.Class == "newline":
 			return prop == "C04"
